@@ -119,7 +119,7 @@ pub fn run(rep: &mut Report, thorough: bool) {
     let mut rng = Rng::new(rep.seed.wrapping_mul(616_161));
     let counts: Vec<usize> = if thorough { vec![1, 2, 19, 20, 21, 22, 40, 64] } else { vec![1, 20, 21, 40] };
     let limit_classes: Vec<u8> = vec![0, 1, 2, 3, 4, 5];
-    let rounds = if thorough { 12 } else { 3 };
+    let rounds = if thorough { 150 } else { 3 };
     let mut offset_cursor: u64 = rep.seed.wrapping_mul(977) % 4096;
     for _round in 0..rounds {
         for &n in &counts {
